@@ -7,10 +7,17 @@ tier=${1:-quick}
 S=/dev/shm/seedrepo; S0=/dev/shm/seedrepo0; O=/dev/shm/seedout
 rm -rf $S $S0 $O; cp -a /repo $S; cp -a /repo $S0; mkdir -p $O
 out=/verif/seeded/RESULTS.txt
-echo "# seeded change | property check | exit code | violations | replay on changed tree | replay on unchanged tree   (tier $tier, $(git -C /repo rev-parse --short HEAD))" > $out
+# SEED_FILTER=<regex>: only the matching changes are re-run and their rows replaced in RESULTS.txt
+if [ -z "$SEED_FILTER" ]; then
+  echo "# seeded change | property check | exit code | violations | replay on changed tree | replay on unchanged tree   (tier $tier, $(git -C /repo rev-parse --short HEAD))" > $out
+fi
 for d in /verif/seeded/*/; do
   name=$(basename $d)
   [ -f $d/patch.diff ] || continue
+  if [ -n "$SEED_FILTER" ]; then
+    echo "$name" | grep -Eq "$SEED_FILTER" || continue
+    grep -v "^$name |" $out > $out.tmp; mv $out.tmp $out
+  fi
   id=$(python3 -c "import json;m=json.load(open('$d/meta.json'));print(m.get('checked_by',m['property']))")
   obsolete=$(python3 -c "import json;print(json.load(open('$d/meta.json')).get('status_on_current_tree','')[:60])")
   git -C $S checkout -q -- . ; git -C $S clean -fdq
@@ -26,4 +33,5 @@ for d in /verif/seeded/*/; do
   fi
   echo "$name | $id | rc=$rc | $nv | $r1 | $r2 ${obsolete:+| obsolete: $obsolete}" >> $out
 done
+if [ -n "$SEED_FILTER" ]; then (head -1 $out; tail -n +2 $out | sort) > $out.tmp; mv $out.tmp $out; fi
 rm -rf $S $S0 $O
